@@ -9,7 +9,7 @@ import subprocess
 import threading
 import time
 
-LS = "/verif/target/ls/release/harper-ls"
+LS = os.path.join(os.path.dirname(os.path.dirname(os.path.abspath(__file__))), "target", "ls", "release", "harper-ls")
 
 
 class Timeout(Exception):
